@@ -23,15 +23,19 @@ structure St where
 
 def upd {α} (f : Nat → α) (i : Nat) (x : α) : Nat → α := fun j => if j = i then x else f j
 
-/-- caller `t` asks for the client of ecosystem `e` -/
-def step (s : St) (t : Nat) (e : Eco) : St :=
+/-- caller `t` asks for the client of ecosystem `e`.  `fails e`: the construction of that ecosystem's client returns an error (an
+unsupported system, an unparsable Maven registry URL, an unreadable .npmrc): `return nil, err` leaves the cell empty, the caller gets
+no client, and the next caller tries (and fails) again. -/
+def step (fails : Eco → Bool) (s : St) (t : Nat) (e : Eco) : St :=
   match s.cell e with
   | some c => { s with got := upd s.got t (some (e, c)) }
-  | none => { s with cell := upd s.cell e (some s.next), next := s.next + 1, built := upd s.built e (s.built e + 1),
-                     got := upd s.got t (some (e, s.next)) }
+  | none =>
+    if fails e then { s with got := upd s.got t none }
+    else { s with cell := upd s.cell e (some s.next), next := s.next + 1, built := upd s.built e (s.built e + 1),
+                  got := upd s.got t (some (e, s.next)) }
 
 def init : St := ⟨fun _ => none, 0, fun _ => 0, fun _ => none⟩
 
-def run (calls : List (Nat × Eco)) : St := calls.foldl (fun s c => step s c.1 c.2) init
+def run (fails : Eco → Bool) (calls : List (Nat × Eco)) : St := calls.foldl (fun s c => step fails s c.1 c.2) init
 
 end Scalibr.OnceCell
